@@ -115,9 +115,9 @@ def handleC10 (inp obs : List String) : Verdict :=
 /-! ## C01 -/
 def handleC01 (inp obs : List String) : Verdict :=
   let parsed := (do
-    let rev ← bool; let c ← nat; let threads ← nat; let comp ← opt nat; let tmp ← nat; let ty ← tok; let _builderOrder ← nat
+    let rev ← bool; let c ← nat; let threads ← nat; let comp ← opt nat; let tmp ← nat; let ty ← tok; let builderOrder ← nat
     let xs ← many pSItem
-    pure (rev, c, threads, comp, tmp, ty, xs)).run inp
+    pure (rev, c, threads, comp, tmp, ty, xs, builderOrder)).run inp
   let pobs : Option ((Option (Nat × List (Item Nat SItem)) × String) × List String) := (do
     let t ← peek?
     if t == some "panic" then pure (none, "panic")
@@ -127,8 +127,10 @@ def handleC01 (inp obs : List String) : Verdict :=
       let outs ← many pChunkItem
       pure (some (len, outs), "")).run obs
   match parsed, pobs with
-  | some ((rev, c, threads, comp, tmp, ty, xs), _), some ((o, why), _) =>
+  | some ((rev, c, threads, comp, tmp, ty, xs, builderOrder), _), some ((o, why), _) =>
     let cmp := cmpItem rev
+    -- (builderOrder / 24) % 3: 0 one sort per sorter; 1 / 2: the observed sort is the first / second of two on one sorter
+    let reuse := (builderOrder / 24) % 3
     let n := xs.length
     let rs := runs c xs
     let hasTie := (canonMulti xs).zip ((canonMulti xs).drop 1) |>.any (fun ab => cmpKey ab.1.1 ab.2.1 == .eq)
@@ -145,7 +147,8 @@ def handleC01 (inp obs : List String) : Verdict :=
       [s!"threads-{threads}", s!"compression-{match comp with | none => "none" | some l => toString l}", s!"tmpdir-{if tmp == 1 then "explicit" else "default"}", s!"type-{ty}"] ++
       (if xs.any (fun x => x.2.length > 8192) then ["record-larger-than-8KiB"] else []) ++
       (if xs.any (fun x => x.2.length > 65536) then ["record-larger-than-64KiB"] else []) ++
-      (if rev then ["reversed-comparator"] else [])
+      (if rev then ["reversed-comparator"] else []) ++
+      (if reuse == 1 then ["sorter-reused-observed-first"] else if reuse == 2 then ["sorter-reused-observed-second"] else [])
     match o with
     | none => { kind := "specfail", nontrivial, classes, detail := why }
     | some (len, outs) =>
